@@ -97,17 +97,8 @@ Definition decode_tx (exact : bool) (n : nat) (data : bytes) : option (bytes * b
 (* wire types known to re-encode because they have no MarshalCBOR method at
    all (proposed known finding "reencode-no-marshalcbor:" + type) *)
 Local Open Scope string_scope.
-Definition known_reencoders : list (string * string) := [
-  ("ledger/allegra", "AllegraTransactionBody"); ("ledger/alonzo", "AlonzoTransactionBody");
-  ("ledger/alonzo", "AlonzoTransactionWitnessSet"); ("ledger/babbage", "BabbageBlockHeader");
-  ("ledger/babbage", "BabbageTransactionBody"); ("ledger/byron", "ByronEpochBoundaryBlock");
-  ("ledger/byron", "ByronEpochBoundaryBlockHeader"); ("ledger/byron", "ByronMainBlock");
-  ("ledger/byron", "ByronMainBlockHeader"); ("ledger/byron", "ByronTransactionBody");
-  ("ledger/byron", "ByronTransactionOutput"); ("ledger/conway", "ConwayTransactionBody");
-  ("ledger/conway", "ConwayTransactionWitnessSet"); ("ledger/dijkstra", "DijkstraSubTransactionBody");
-  ("ledger/dijkstra", "DijkstraTransactionBody"); ("ledger/dijkstra", "DijkstraTransactionWitnessSet");
-  ("ledger/shelley", "ShelleyBlockHeader"); ("ledger/shelley", "ShelleyTransactionBody");
-  ("ledger/shelley", "ShelleyTransactionWitnessSet")].
+(* empty since fix commit bc9dc7f added the stored-bytes-first MarshalCBOR to the 19 types that were listed here *)
+Definition known_reencoders : list (string * string) := [].
 
 Definition entry := (string * string * N * bool)%type.
 Definition is_known (e : entry) : bool :=
